@@ -1,7 +1,7 @@
 (* C09: every trace of the product machine the driver runs is accepted by the product
    monitor — by the two component theorems. *)
 From Verif Require Import Base.Prelude Base.Machine Model.C09Machine Spec.C09MachineSpec.
-From Verif Require Model.Stack Model.BindSched Spec.C09Spec Spec.BindSchedSpec Proofs.C09Proofs Proofs.BindSchedProofs.
+From Verif Require Model.Stack Model.StackX Model.BindSched Spec.C09Spec Spec.StackXSpec Spec.BindSchedSpec Proofs.C09Proofs Proofs.BindSchedProofs Proofs.StackXProofs.
 
 Lemma option_all_some {A B} (f : A -> B) (g : B -> option A) l :
   (forall x, g (f x) = Some x) -> option_all (map g (map f l)) = Some l.
@@ -20,9 +20,9 @@ Lemma cstep_inv s m o : CInv s m ->
   let '(m1, v) := cmon m o (snd (cstep s o)) in v = [] /\ CInv (fst (cstep s o)) m1.
 Proof.
   intros [I1 I2]. destruct o as [o|o]; simpl.
-  - pose proof (C09Proofs.step_inv (fst s) (fst m) o I1) as H.
-    destruct (Stack.step (fst s) o) as [s1 out]. simpl in *. rewrite stack_obs_SO.
-    destruct (C09Spec.mon (fst m) o out) as [m1 v]. destruct H as [Hv HI]. split; [exact Hv|]. split; assumption.
+  - pose proof (StackXProofs.xstep_inv C09Spec.mon C09Proofs.Inv C09Proofs.step_inv (fst s) (fst m) o I1) as H.
+    destruct (StackX.xstep (fst s) o) as [s1 out]. simpl in *. rewrite stack_obs_SO.
+    destruct (StackXSpec.xmon C09Spec.mon (fst m) o out) as [m1 v]. destruct H as [Hv HI]. split; [exact Hv|]. split; assumption.
   - pose proof (BindSchedProofs.step_inv (snd s) (snd m) o I2) as H.
     destruct (BindSched.step (snd s) o) as [s1 out]. simpl in *. rewrite sched_obs_BO.
     destruct (BindSchedSpec.mon (snd m) o out) as [m1 v]. destruct H as [Hv HI]. split; [exact Hv|]. split; assumption.
